@@ -297,7 +297,27 @@ def check_C06(chk, tier):
     check_gssvx(chk, ["C06."], tier, "C06")
 
 
-REGISTRY = {"C05": check_C05, "C06": check_C06, "C01": check_C01, "C02": check_C02, "C03": check_C03, "C04": check_C04}
+# ------------------------------------------------------------------------------------------------ C18 argument screening (E1 / CBMC)
+import e1
+E1H = VERIF + "/harness/e1/"
+C18_ROUTINES = {1: ("gssv", ["{p}gssv.c"]), 2: ("gssvx", ["{p}gssvx.c"]), 3: ("gsisx", ["{p}gsisx.c"]), 4: ("gstrs", ["{p}gstrs.c"]), 5: ("gsrfs", ["{p}gsrfs.c"]), 6: ("gscon", ["{p}gscon.c"]),
+                7: ("gsequ", ["{p}gsequ.c"]), 8: ("sp_trsv", ["{p}sp_blas2.c"]), 9: ("sp_gemv", ["{p}sp_blas2.c"])}
+
+
+def check_C18(chk, tier):
+    chk.assumptions += ["every corruption is a single-argument corruption of an otherwise valid call (as the property quantifies); dimensions <= 2, nrhs <= 2, lda <= 3",
+                        "worker routines and allocators have assert(false) bodies generated at goto level: reaching any of them is reported as a failure (this is how 'no work started / no allocation retained' is decided)",
+                        "CBMC 6.11 + CaDiCaL; bit-precise doubles for the scale-factor tests; NaN scale factors excluded (NaN is not 'non-positive')"]
+    hs = []
+    for prec in (["d"] if tier == "quick" else ["d", "s", "z", "c"]):
+        mach = {"d": "dmach.c", "z": "dmach.c", "s": "smach.c", "c": "smach.c"}[prec]
+        for r, (nm, srcs) in C18_ROUTINES.items():
+            src = [E1H + "h18.c", REPO + "/SRC/util.c", REPO + "/SRC/" + mach] + [REPO + "/SRC/" + s_.format(p=prec) for s_ in srcs]
+            hs.append(e1.Harness("c18_%s_%s" % (prec, nm), src, defs=["-DPREC_" + prec.upper(), "-DROUTINE=%d" % r], unwind=3, unwindset={"same_bytes.0": 50}, timeout=900))
+    e1.run_harnesses(chk, hs, "C18 argument screening", "n <= 2, nrhs <= 2, lda <= 3, every enum/tag/dimension/lwork/equed/scale-factor corruption; unwind 3 (all loops bounded by n <= 2)")
+
+
+REGISTRY = {"C18": check_C18, "C05": check_C05, "C06": check_C06, "C01": check_C01, "C02": check_C02, "C03": check_C03, "C04": check_C04}
 
 
 def run(pid, tier):
